@@ -139,6 +139,44 @@ pub fn run_property<P: Property>(p: &P, args: &Args) -> i32 {
             return 2;
         };
         let case = v.get("case").cloned().unwrap_or(v);
+        if f.clause == "hang" {
+            // non-termination cannot be observed in-process: replay in a child with a wall-clock
+            // cap far above the expected run time (microseconds). Only used to REPORT a recorded
+            // finding, never to raise an alarm.
+            let exe = std::env::current_exe().expect("current exe");
+            let mut child = std::process::Command::new(exe)
+                .args([id, args.tier.name(), "--replay", path.to_str().unwrap()])
+                .stdout(std::process::Stdio::null())
+                .stderr(std::process::Stdio::null())
+                .spawn()
+                .expect("spawn replay child");
+            let t0 = std::time::Instant::now();
+            let mut finished = None;
+            while t0.elapsed().as_secs() < 10 {
+                if let Ok(Some(st)) = child.try_wait() {
+                    finished = Some(st);
+                    break;
+                }
+                std::thread::sleep(std::time::Duration::from_millis(50));
+            }
+            corpus_evals += 1;
+            match finished {
+                None => {
+                    let _ = child.kill();
+                    let _ = child.wait();
+                    let line = format!("KNOWN-FINDING: property={} {} [hang] {}", id, f.finding, f.what);
+                    println!("{}", line);
+                    known_lines.push(line);
+                }
+                Some(st) if st.code() == Some(0) => println!("NOTE: known finding {} no longer reproduces on this tree", f.finding),
+                Some(st) => {
+                    println!("reproducer of {} terminated with {:?} instead of hanging", f.finding, st.code());
+                    println!("VIOLATION property={} replay={}", id, path.display());
+                    violations.push(path.display().to_string());
+                }
+            }
+            continue;
+        }
         match replay_case(p, &case, args.tier, true) {
             Ok(rep) => {
                 corpus_evals += 1;
